@@ -17,19 +17,25 @@ CONSTANTS MaxStates, Names, LayoutMode, MaxLen
 VARIABLES n, names, table, init, layout
 
 Seps == {"none", "space", "newline"}
+\* interval: `accepting` (and the list inside the nested extra record) written [1..n];  rowint: every row of
+\* table.transitions that is a run of consecutive integers written [x..y] (GAP: [2..4] = [2,3,4]), in whatever
+\* position the row stands;  initint: `initial` written [i..i]
 Layouts == [sep : Seps, interval : BOOLEAN, quoted : BOOLEAN, order : {"std", "table_first", "initial_last"},
-            nested_extra : BOOLEAN]
+            nested_extra : BOOLEAN, rowint : BOOLEAN, initint : BOOLEAN]
 
 \* all injective sequences (orderings) of non-empty subsets of Names
 Orderings == {s \in UNION {[1..m -> Names] : m \in 1..Cardinality(Names)} :
                  \A i, j \in 1..Len(s) : s[i] = s[j] => i = j}
 
-\* layout number h (mixed radix 3 x 2 x 2 x 3 x 2)
+\* layout number h (mixed radix 3 x 2 x 2 x 3 x 2 x 2 x 2)
 LayoutNo(h) == [sep |-> <<"none", "space", "newline">>[(h % 3) + 1],
                 interval |-> ((h \div 3) % 2 = 0),
                 quoted |-> ((h \div 6) % 2 = 0),
                 order |-> <<"std", "table_first", "initial_last">>[((h \div 12) % 3) + 1],
-                nested_extra |-> ((h \div 36) % 2 = 0)]
+                nested_extra |-> ((h \div 36) % 2 = 0),
+                rowint |-> ((h \div 72) % 2 = 0),
+                initint |-> ((h \div 144) % 2 = 1)]
+NLayouts == 288
 
 RECURSIVE SumSeq(_)
 SumSeq(s) == IF s = <<>> THEN 0 ELSE Head(s) + SumSeq(Tail(s))
@@ -41,7 +47,7 @@ Init ==
   /\ table \in [1..n -> [1..Len(names) -> 0..n]]
   /\ init \in 1..n
   /\ IF LayoutMode = "all" THEN layout \in Layouts
-     ELSE layout = LayoutNo((TableHash(table) + 5 * init + 7 * Len(names)) % 72)
+     ELSE layout = LayoutNo((TableHash(table) + 5 * init + 7 * Len(names)) % NLayouts)
 
 Next == UNCHANGED <<n, names, table, init, layout>>
 
@@ -65,6 +71,16 @@ TableMeaning ==
 
 Deterministic == Ops!Det(E)
 
+\* a row that GAP's interval syntax can denote, and how each row is to be written under the layout
+IsRun(r) == \A j \in 1..(Len(r) - 1) : r[j + 1] = r[j] + 1
+RowForm == [i \in 1..n |-> IF layout.rowint /\ IsRun(table[i]) THEN "interval" ELSE "list"]
+\* the interval [x..y] denotes the row it replaces
+IntervalMeaning ==
+  \A i \in 1..n : RowForm[i] = "interval" =>
+     LET x == table[i][1]  y == table[i][Len(names)] IN
+     /\ y - x + 1 = Len(names)
+     /\ \A j \in 1..Len(names) : table[i][j] = x + j - 1
+
 EmitRec == PrintT("REC " \o ToJson([n |-> n, names |-> names, table |-> table, init |-> init,
-                                      layout |-> layout, E |-> E]))
+                                      layout |-> layout, rowform |-> RowForm, E |-> E]))
 =============================================================================
